@@ -25,6 +25,10 @@ CLAIMED = {
    text="Machine-checked proof (Lean 4, full): opEqual_iff proves for ALL first-order Folang values a, b (any nesting of ints, strings, bools, tuples, records with any field capitalisation, unions, slices) and ALL Go representations of them (each empty slice independently nil or non-nil) that the model of frt.OpEqual = cmp.Equal+Exporter+EquateEmpty never panics and returns decide(a = b); reflexivity, symmetry, transitivity and <> = negation follow. Witness theorems show plain cmp.Equal (before fix 01c3b5f) violates both clauses. Tied to /repo by the eq.pair stream: pairs of values of 12 real fc-emitted types through the emitted =/<> functions vs the model.",
    design="§5 C10", technique="Lean 4 theorem (mutual structural induction over values) + correspondence on fc-emitted types",
    note="Trusted: Lean kernel; the model of go-cmp v0.6.0's rules and of the value representation; prelude transpiled by the real fc at check time. Floats/functions/maps are outside the statement."),
+ "C15": dict(
+   text="Machine-checked proof (Lean 4, PARTIAL): toGo_* theorems prove for sub-types of any depth that the model of FTypeToGo renders every type constructor as documented (float->float64, ()->no result, []T, frt.Tuple2/3[...], func (A,B) C with unit result/argument omitted, Name[T, U]). The parser (parseType > parseTypeArrows > parseElemType > parseTermType > parseAtomType) is an executable Lean model; its round-trip theorem roundtrip_full is stated but NOT proved; precedence clauses are checked on instances by kernel evaluation. The model is tied to the real parseType+FTypeToGo by exhaustive enumeration (depth<=1 quick, <=2 thorough), random deeper expressions with redundant parentheses, the five syntactic positions through the whole pipeline, and a malformed-token stream; the harness also compares with the documented mapping directly.",
+   design="§5 C15", technique="Lean 4 lemmas on the emitter model + executable parser model in exhaustive correspondence with the real parser (round-trip theorem pending)",
+   note="Trusted: Lean kernel; parser model correspondence (not a proof) for the parsing half; go/parser position cutting; forward references in type groups are outside the statement."),
  "C14": dict(
    text="Machine-checked proof (Lean 4, full): dict refines a finite map (add_refines, containsKey/tryFind/item_refines, keys/kvs_enumerates with Nodup for EVERY enumeration order, toDict_last), strings laws for all byte strings (concat_split, concat_splitN, splitN2, hasPrefix/hasSuffix_iff, trimSuffix_append, argument-order theorems) over a transcription of Go's genSplit/Index, buf_accumulates, frt thunk/tuple laws, and toS_total: for every reflect kind the accessor chosen by the REGENERATED kind switch is legal (false before fix a41e038: toS_unfixed_panics). Tied to /repo by regenerated inventories + toS arms and by lib.dict/lib.str/lib.buf/lib.tos correspondence streams against the real packages.",
    design="§5 C14", technique="Lean 4 theorems (refinement, list laws, decide over a regenerated table) + correspondence with the real packages",
